@@ -212,6 +212,24 @@ def run(chk):
                 chk.run("C02.R1", f"{MOD}:FisherKPP.equation", {"kind": kind, "d": d, "on_the_grid": {"r": "r(x)", "g": "gamma(x)"}[gkey]}, go_grid_r,
                         construct=f"FisherKPP[SPINN, {gkey} given on the grid]")
 
+        # Burgers on a separable network with a viscosity that varies in space, given per grid point of the x axis as a column
+        # (n_x, 1) (what a heterogeneity function of x, or an array put in eq_params, produces): it multiplies u_xx point by point
+        # along x, for every time
+        if kind == 'SPINN':
+            def go_nu_x():
+                import numpy as _np
+                from ..alg import AT as _AT
+                from ..specs import F as Fs
+                inst = cls("BurgerEquation").make(Tmax=K("Tmax"), eq_params_heterogeneity=None)
+                t, x = inputs('SPINN', 1)
+                u = Net('u', 'SPINN', 1, 'nonstatio_PDE', 1)
+                nu_x = _AT(("G0", 1), _np.array([Poly.atom(('F', 'nu_x', None, frozenset({"G0"})))], dtype=object))
+                r = inst.evaluate(t, x, u, params({"nu": nu_x}))
+                exp = [q.map_atoms(lambda a_: Fs('nu_x') if a_ == P('nu').single_atom() else a_) for q in spec_burgers()]
+                return compare(r, exp, gax('SPINN', 1) + (1,), "BurgerEquation")
+            chk.run("C02.R1", f"{MOD}:BurgerEquation.equation", {"kind": kind, "nu": "nu(x) as a column over the x axis of the grid"}, go_nu_x,
+                    construct="BurgerEquation[SPINN, nu given along x]")
+
         # Ornstein-Uhlenbeck Fokker-Planck 2D
         def go(kind=kind):
             inst = cls("OU_FPENonStatioLoss2D").make(Tmax=K("Tmax"), eq_params_heterogeneity=None)
